@@ -2,6 +2,7 @@ package props
 
 import (
 	"bufio"
+	"bytes"
 	"encoding/json"
 	"fmt"
 	"math/big"
@@ -119,6 +120,41 @@ func diffExported(a, b reflect.Value, path string, depth int) string {
 	case reflect.Slice:
 		if a.IsNil() != b.IsNil() || a.Len() != b.Len() {
 			return fmt.Sprintf("%s (len %d vs %d)", path, a.Len(), b.Len())
+		}
+		// fast paths: byte, int and string slices are compared without per-element reflection
+		switch a.Type().Elem().Kind() {
+		case reflect.Uint8:
+			if a.Type().Elem() == reflect.TypeOf(byte(0)) && a.CanInterface() {
+				x, y := a.Bytes(), b.Bytes()
+				if bytes.Equal(x, y) {
+					return ""
+				}
+				for i := range x {
+					if x[i] != y[i] {
+						return fmt.Sprintf("%s[%d]", path, i)
+					}
+				}
+			}
+		case reflect.Int:
+			if x, ok := a.Interface().([]int); ok {
+				y := b.Interface().([]int)
+				for i := range x {
+					if x[i] != y[i] {
+						return fmt.Sprintf("%s[%d]", path, i)
+					}
+				}
+				return ""
+			}
+		case reflect.String:
+			if x, ok := a.Interface().([]string); ok {
+				y := b.Interface().([]string)
+				for i := range x {
+					if x[i] != y[i] {
+						return fmt.Sprintf("%s[%d]", path, i)
+					}
+				}
+				return ""
+			}
 		}
 		for i := 0; i < a.Len(); i++ {
 			if d := diffExported(a.Index(i), b.Index(i), fmt.Sprintf("%s[%d]", path, i), depth+1); d != "" {
@@ -358,11 +394,11 @@ func TestC05(t *testing.T) {
 			rec.Sample(sampleCase(ec, map[string]interface{}{"reps": R}))
 		}
 	})
-	// ... and over the home sweep (every lint's own single-edit neighbourhood; one unit in twelve per seed in
+	// ... and over the home sweep (every lint's own single-edit neighbourhood; repetitions on one mutant in twelve per seed in
 	// quick, all in thorough): three runs on fresh parses agree in status and details, and the linted
 	// object equals an unlinted twin in every exported field
 	{
-		sweepStride, sweepOffset = stats.Scale(12, 1), int(verifSeed()%12)
+		repShare := uint64(stats.Scale(12, 1))
 		homeSweep(rec, 2, false, "c05", func(ec engine.Case, run *engine.Run) (string, string) {
 			if !run.Parsed || run.RS == nil || run.Panic != "" {
 				return "", ""
@@ -380,7 +416,8 @@ func TestC05(t *testing.T) {
 				return "mutated|" + regexp.MustCompile(`\[\d+\]`).ReplaceAllString(d, "[]"), "linting changed exported field " + d + " of the linted object"
 			}
 			v0 := engine.Verdicts(run.RS)
-			for r := 1; r < 3; r++ {
+			// the read-only oracle sees every mutant; the repetitions one mutant in twelve (all in thorough)
+			for r := 1; r < 3 && (stats.Hash(ec.DER)+verifSeed())%repShare == 0; r++ {
 				r2 := engine.ExecuteReg(ec, run.Reg, run.Cfg, false)
 				if r2.RS == nil {
 					return "", ""
@@ -405,7 +442,6 @@ func TestC05(t *testing.T) {
 			}
 			return "", ""
 		}, func(s string) { t.Fatalf("%s", s) })
-		sweepStride, sweepOffset = 1, 0
 	}
 	// enumerated: every pair and triple of the key purposes zlint knows x every key usage of one to three named bits
 	// (of the first five), on a subscriber certificate, linted sixteen times with the lints that read both
@@ -522,6 +558,8 @@ func TestC05(t *testing.T) {
 		}
 	})
 
+	// (2') the soak history: an object met again after many distinct others gets its first verdict
+	soakHistory(rec, stats.Scale(1600, 12000), soakVisitC05, func(s string) { t.Fatalf("%s", s) })
 	// (2) history independence: stateful, model = memo of the first verdict per (DER, selection, config)
 	rapidRun(t, "histories", perShard(stats.Scale(300, 5000)), func(rt *rapid.T) {
 		var hc c05HistoryCase
